@@ -173,6 +173,46 @@ theorem connection {U : Universe} {s : State} (hI : Inv U s) {b : Header} (hb : 
         stored (s.processBlock b).1 y.parent ∧ Refused (SaveReach (s.saveBlock b).1) y :=
   processBlock_connects hI hb hp hne hok hfuel
 
+/-- the fuel hypothesis of `connection` holds whenever every pool member is a defined block (the
+    engine defines a block before it delivers it) -/
+theorem pool_le_defs {U : Universe} {s : State} (hI : Inv U s)
+    (hd : ∀ o ∈ s.orphans, o.id ∈ s.defs.map (·.id)) : s.orphans.length ≤ s.defs.length := by
+  have h1 : (s.orphans.map (·.id)).Subperm (s.defs.map (·.id)) :=
+    List.subperm_of_subset hI.pool.nodup (fun i hi => by
+      obtain ⟨o, ho, e⟩ := List.mem_map.mp hi
+      exact e ▸ hd o ho)
+  simpa using h1.length_le
+
+/-- … and "every pool member is a defined block" is preserved by the delivery of a defined block -/
+theorem poolDefined_processBlock {U : Universe} {s : State} (hI : Inv U s) {b : Header} (hb : Coh U b)
+    (hd : ∀ o ∈ s.orphans, o.id ∈ s.defs.map (·.id)) (hbd : b.id ∈ s.defs.map (·.id)) :
+    ∀ o ∈ (s.processBlock b).1.orphans, o.id ∈ (s.processBlock b).1.defs.map (·.id) := by
+  rcases processBlock_cases s b with ⟨_, e, _⟩ | ⟨_, _, e⟩ | ⟨_, _, _, e⟩ | ⟨_, _, hok, e, _⟩
+  · rw [e]; exact hd
+  · rw [e]
+    intro o ho
+    rw [(orphanAdd_poolOnly s b).defs]
+    rw [orphanAdd_orphans] at ho
+    split at ho
+    · exact hd o ho
+    · rcases List.mem_append.mp ho with h | h
+      · exact hd o h
+      · simp at h; subst h; exact hbd
+  · rw [e]
+    have g := grow_saveBlock hI hb
+    intro o ho
+    rw [g.defs]
+    exact hd o ((g.mem_orphans o).mp ho).1
+  · rw [e]
+    have g1 := grow_saveBlock hI hb
+    have g2 := ssb_grow g1.inv ((stored_saveBlock_true hok _).mpr (Or.inl rfl)) (s.saveBlock b).1.fuel
+    have g := g1.trans g2
+    intro o ho
+    simp only [tryReorganize_orphans, tryReorganize_defs] at ho ⊢
+    unfold connect at ho ⊢
+    rw [g.defs]
+    exact hd o ((g.mem_orphans o).mp ho).1
+
 /-- when `saveBlock` refuses `b` itself, `processBlock` answers `err`, `b` is neither stored anew nor
     put into the pool, and the pool is untouched -/
 theorem connection_refused {U : Universe} {s : State} (hp : stored s b.parent) (hne : ¬ Early s b)
